@@ -2,5 +2,5 @@ SPECIFICATION FairSpec
 INVARIANTS TypeOK AllBufferedFlushed LevelA NeverAbandoned NonBlockingNeverBlocks DropsCounted BlockingNeverDrops
 CHECK_DEADLOCK FALSE
 CONSTANTS
-  FaultKinds = {"4xx", "5xx", "timeout", "reset"}
+  FaultKinds = {"4xx", "5xx", "timeout", "reset", "stall"}
   Record = FALSE
